@@ -143,7 +143,7 @@ structure St where
   table    : List (Nat × Bytes × Bytes) := []       -- codec id, raw, compressed
   codecId  : Nat := 0
   miss     : Bool := false
-  fixF1    : Bool := false
+  fixF1    : Bool := true
   wcfg     : WCfg := { blockSize := 8192 }
   w        : Option W := none
   wdead    : Bool := false
@@ -294,7 +294,7 @@ def stepLine (st : St) (line : String) : St × String :=
      | _ => (st, out3 "-"))
   | ["interop"] =>
     let l := (fmtList st.es).replace " " "/"
-    let same := if st.codecId = 5 || st.wcfg.minBlock < 1024 then "n/a" else "true"
+    let same := if st.wcfg.minBlock < 1024 then "n/a" else "true"
     (st, out3 s!"ok old-reads-new={l} new-reads-old={l} dec-new={l} dec-old={l} same-bytes={same}")
   -- varint
   | ["venc", n] => (st, out3 (match n.toNat? with | some n => hex (Varint.encode32 n) | none => "bad-op"))
